@@ -423,6 +423,22 @@ func (fr *Frame) callWithContract(st *State, c *FuncContract, fn *ssa.Function, 
 				}
 				continue
 			}
+			if strings.HasPrefix(a, "*") {
+				// *param: everything stored in the object the pointer argument refers to
+				pn := strings.TrimPrefix(a, "*")
+				for i, n := range pnames {
+					if n != pn || i >= len(args) || !isPointer(args[i].Ty) {
+						continue
+					}
+					p := x.ptrOf(args[i])
+					if p.Base == pbHeap && len(p.Sel) == 0 {
+						heapPats = append(heapPats, "H_"+typeKey(p.BaseTy))
+					} else {
+						x.storePath(st, p, x.freshVal(pn, p.Ty))
+					}
+				}
+				continue
+			}
 			heapPats = append(heapPats, a)
 		}
 		x.havocHeapsMatching(st, heapPats)
